@@ -44,6 +44,12 @@ func (m *Meta) TokenReader() xml.TokenReader {
 	if m.Hash.Hash != 0 {
 		hash = m.Hash.TokenReader()
 	}
+	// RFC 3339 offsets have no seconds: a time in a zone whose offset is not a
+	// whole number of minutes would be written as a different instant.
+	date := m.Date
+	if _, off := date.Zone(); off%60 != 0 {
+		date = date.In(time.FixedZone("", off-off%60))
+	}
 	return xmlstream.Wrap(
 		xmlstream.MultiReader(
 			xmlstream.Wrap(
@@ -59,7 +65,7 @@ func (m *Meta) TokenReader() xml.TokenReader {
 				},
 			),
 			xmlstream.Wrap(
-				xmlstream.Token(xml.CharData(m.Date.Format(time.RFC3339))),
+				xmlstream.Token(xml.CharData(date.Format(time.RFC3339))),
 				xml.StartElement{
 					Name: xml.Name{Local: "date"},
 				},
